@@ -145,6 +145,8 @@ func genTransmit(r *Rng, tier string, p *Plan) {
 	if r.Bool(0.6) {
 		p.Add(Op{K: "stop", At: now + PickOf(r, int64(0), 1, bt/4, bt/2, bt, 5*bt)})
 	}
+	// the API hosts are written with a trailing slash (legal) in some plans
+	p.N["host_slash"] = int64(PickOf(r, 0, 0, 0, 0, 1))
 	p.SortOps()
 }
 
@@ -358,6 +360,9 @@ func runTransmit(t *testing.T, p *Plan) *Outcome {
 						return
 					}
 					d := txDests[op.I]
+					if p.Get("host_slash", 0) == 1 {
+						d.host += "/"
+					}
 					id := fmt.Sprintf("e%d", op.ID)
 					data := map[string]any{"id": id, "n": op.ID}
 					if op.N > 0 {
